@@ -5,7 +5,7 @@ VERIF = os.path.dirname(os.path.dirname(os.path.abspath(__file__)))
 CACHE = os.path.join(VERIF, ".cache")
 
 CHECK_RE = re.compile(
-    r"^Check (\d+): (\S+)\n\t - Status: (\w+)\n\t - Description: \"(.*?)\"\n(?:\t - Location: (.*?)\n)?",
+    r"^Check (\d+): ([^\n]+)\n\t - Status: (\w+)\n\t - Description: \"(.*?)\"\n(?:\t - Location: (.*?)\n)?",
     re.M | re.S,
 )
 
